@@ -149,7 +149,9 @@ fn command_set(r: &mut Rng) -> Vec<(u8, u16, bool, u32)> {
                     r.range(0, 250) as u16
                 },
                 wide,
-                r.u32() % 30000,
+                // (zero among the values: for the floating-point variations the one value whose echo can differ in a
+                // single bit and still compare equal as a number)
+                if r.chance(1, 6) { 0 } else { r.u32() % 30000 },
             ));
         }
     }
